@@ -1,7 +1,7 @@
 (* Consequences of matcher soundness (Lib/RegexSem.v) used by the inline-layer proofs:
    scanning partitions the subject, group-free sub-patterns keep the captures, literal
    alternations consume one of their literals, character-class loops consume class members. *)
-From Rimu Require Import Base Unicode Regex RegexSem Str Types.
+From Rimu Require Import Base Unicode Regex RegexSem RegexAnalysis Str Types.
 From Coq Require Import Lia.
 
 (* ---- prefixes of one string ---- *)
@@ -105,7 +105,7 @@ Fixpoint nogroups (r : regex) : bool :=
 
 Lemma nogroups_caps :
   (forall r s s', Matches r s s' -> nogroups r = true -> st_c s' = st_c s) /\
-  (forall b s s', Iter b s s' -> nogroups b = true -> st_c s' = st_c s).
+  (forall b s k s', Iter b s k s' -> nogroups b = true -> st_c s' = st_c s).
 Proof.
   apply Matches_Iter_ind; intros; cbn [nogroups] in *; try reflexivity;
     try match goal with H : _ && _ = true |- _ => apply andb_prop in H as [? ?] end.
@@ -161,13 +161,13 @@ Proof.
 Qed.
 
 (* a loop over a character class consumes members of the class *)
-Lemma Iter_set neg items : forall s s', Iter (RSet neg items) s s' ->
-  exists w, consumed s s' w /\ (forall x, In x w -> set_match neg items x = true) /\ st_c s' = st_c s.
+Lemma Iter_set neg items : forall s k s', Iter (RSet neg items) s k s' ->
+  exists w, consumed s s' w /\ (forall x, In x w -> set_match neg items x = true) /\ st_c s' = st_c s /\ length w = k.
 Proof.
-  intros s s' H. remember (RSet neg items) as b eqn:Eb. induction H as [|b s s1 s' M It IH]; subst.
-  - exists []. split; [reflexivity|]. split; [intros x []|reflexivity].
-  - destruct (IH eq_refl) as (w & C & Hw & Kc). inversion M; subst.
-    exists (x :: w). unfold consumed in *. cbn in *. rewrite C. split; [reflexivity|]. split; [|exact Kc].
+  intros s k s' H. remember (RSet neg items) as b eqn:Eb. induction H as [|b s s1 k s' M It IH]; subst.
+  - exists []. split; [reflexivity|]. split; [intros x []|split; reflexivity].
+  - destruct (IH eq_refl) as (w & C & Hw & Kc & Hl). inversion M; subst.
+    exists (x :: w). unfold consumed in *. cbn in *. rewrite C. split; [reflexivity|]. split; [|split; [exact Kc|congruence]].
     intros y [<-|Hy]; auto.
 Qed.
 
@@ -178,8 +178,8 @@ Proof. intros M. inversion M; subst. eauto. Qed.
 Lemma Matches_alt_inv a b s s' : Matches (RAlt a b) s s' -> Matches a s s' \/ Matches b s s'.
 Proof. intros M. inversion M; subst; auto. Qed.
 
-Lemma Matches_rep_inv g mn mx b s s' : Matches (RRep g mn mx b) s s' -> Iter b s s'.
-Proof. intros M. inversion M; subst. assumption. Qed.
+Lemma Matches_rep_inv g mn mx b s s' : Matches (RRep g mn mx b) s s' -> exists k, Iter b s k s' /\ (N.to_nat mn <= k)%nat.
+Proof. intros M. inversion M; subst. eauto. Qed.
 
 Lemma Matches_grp_inv n b s s' : Matches (RGrp n b) s s' ->
   exists s1, Matches b s s1 /\
@@ -197,9 +197,9 @@ Lemma Matches_step subj r s s' : Matches r s s' -> wfst subj s ->
   wfst subj s' /\ exists w, consumed s s' w /\ st_i s' = st_i s + lenN w.
 Proof. intros M W. exact (proj1 (Matches_wf subj) r s s' M W). Qed.
 
-Lemma Iter_step subj b s s' : Iter b s s' -> wfst subj s ->
+Lemma Iter_step subj b s k s' : Iter b s k s' -> wfst subj s ->
   wfst subj s' /\ exists w, consumed s s' w /\ st_i s' = st_i s + lenN w.
-Proof. intros M W. exact (proj2 (Matches_wf subj) b s s' M W). Qed.
+Proof. intros M W. exact (proj2 (Matches_wf subj) b s k s' M W). Qed.
 
 (* a group records exactly what its body consumed *)
 Lemma Matches_grp_text subj n b s s' : Matches (RGrp n b) s s' -> wfst subj s ->
@@ -212,3 +212,103 @@ Proof.
   eexists s1, _, w. split; [exact M1|]. split; [exact C|]. split; [reflexivity|]. split; [|split; [reflexivity|exact W']].
   unfold cap_text. cbn. rewrite I, C. replace (st_i s + lenN w - st_i s) with (lenN w) by lia. apply takeN_app_exact.
 Qed.
+
+(* ---- captures only grow ---- *)
+Definition has_cap (n : nat) (c : caps) : Prop := cap_get n c <> None.
+
+Lemma has_cap_cons n m g c : has_cap n c -> has_cap n ((m, g) :: c).
+Proof. unfold has_cap. simpl. destruct (Nat.eqb n m); [discriminate|auto]. Qed.
+
+Lemma caps_mono n :
+  (forall r s s', Matches r s s' -> has_cap n (st_c s) -> has_cap n (st_c s')) /\
+  (forall b s k s', Iter b s k s' -> has_cap n (st_c s) -> has_cap n (st_c s')).
+Proof.
+  apply Matches_Iter_ind; intros; cbn [st_c] in *; auto.
+  apply has_cap_cons. auto.
+Qed.
+
+(* ---- groups that take part in every match ---- *)
+Fixpoint always_grp (n : nat) (r : regex) : bool :=
+  match r with
+  | RGrp m b => Nat.eqb n m || always_grp n b
+  | RSeq a b => always_grp n a || always_grp n b
+  | RAlt a b => always_grp n a && always_grp n b
+  | RRep _ mn _ b => negb (mn =? 0) && always_grp n b
+  | RLook false b => always_grp n b
+  | _ => false
+  end.
+
+Lemma always_grp_sound n :
+  (forall r s s', Matches r s s' -> always_grp n r = true -> has_cap n (st_c s')) /\
+  (forall b s k s', Iter b s k s' -> always_grp n b = true -> (0 < k)%nat -> has_cap n (st_c s')).
+Proof.
+  apply Matches_Iter_ind; intros; cbn [always_grp st_c] in *; try discriminate.
+  - (* seq *) apply orb_prop in H1 as [Ha|Hb]; [|auto]. eapply (proj1 (caps_mono n)); eauto.
+  - apply andb_prop in H0 as [Ha _]. auto.
+  - apply andb_prop in H0 as [_ Hb]. auto.
+  - (* rep *) apply andb_prop in H0 as [Hm Hb]. apply negb_true_iff, N.eqb_neq in Hm. apply H; [exact Hb|lia].
+  - (* grp *) unfold has_cap. simpl. destruct (Nat.eqb n n0) eqn:E; [discriminate|]. simpl in H0. apply H. exact H0.
+  - (* look *) auto.
+  - lia.
+  - (* iter more *) destruct k as [|k]; [|apply H0; [exact H1|lia]].
+    inversion i; subst. auto.
+Qed.
+
+Lemma match_spec_grp_some r text m k : match_spec r text m -> always_grp (S k) (re_ast r) = true -> (k < re_groups r)%nat ->
+  exists t, grp m (S k) = Some t.
+Proof.
+  intros [pre w post p fin Hs Hst Hen Hg Mrun Hrest Hwf] Ha Hk.
+  pose proof (proj1 (always_grp_sound (S k)) _ _ _ Mrun Ha) as Hc. unfold has_cap in Hc.
+  unfold grp. rewrite Hg. cbn [nth]. rewrite group_list_nth by exact Hk.
+  destruct (cap_get (S k) (st_c fin)) as [g|]; [|congruence]. cbn. eauto.
+Qed.
+
+(* ---- a pattern that cannot match the empty string consumes something ---- *)
+Lemma nonnull_consumes :
+  (forall r s s', Matches r s s' ->
+     (length (st_rest s') <= length (st_rest s))%nat /\
+     (RegexAnalysis.nullable r = false -> (length (st_rest s') < length (st_rest s))%nat)) /\
+  (forall b s k s', Iter b s k s' ->
+     (length (st_rest s') <= length (st_rest s))%nat /\
+     (RegexAnalysis.nullable b = false -> (0 < k)%nat -> (length (st_rest s') < length (st_rest s))%nat)).
+Proof.
+  apply Matches_Iter_ind; intros; cbn [RegexAnalysis.nullable st_rest] in *;
+    repeat match goal with H : (_ <= _)%nat /\ _ |- _ => destruct H end;
+    (split; [simpl; try lia|intros Hn; try discriminate; simpl; try lia]).
+  - apply andb_false_iff in Hn as [Hn|Hn]; [apply H2 in Hn|apply H1 in Hn]; lia.
+  - apply orb_false_iff in Hn as [Hn _]. auto.
+  - apply orb_false_iff in Hn as [_ Hn]. auto.
+  - apply orb_false_iff in Hn as [Hm Hn]. apply N.eqb_neq in Hm.
+    match goal with H : _ -> (0 < _)%nat -> _ |- _ => apply H; [exact Hn|lia] end.
+  - auto.
+  - apply strip_prefix_app in e0. rewrite e0, app_length. lia.
+  - intros _. match goal with H : nullable b = false -> (_ < _)%nat |- _ => apply H in Hn end. lia.
+Qed.
+
+(* ---- a group not mentioned by a sub-pattern keeps its capture across it ---- *)
+Fixpoint mentions (n : nat) (r : regex) : bool :=
+  match r with
+  | RGrp m b => Nat.eqb n m || mentions n b
+  | RSeq a b | RAlt a b => mentions n a || mentions n b
+  | RRep _ _ _ b | RLook _ b => mentions n b
+  | _ => false
+  end.
+
+Lemma caps_other n :
+  (forall r s s', Matches r s s' -> mentions n r = false -> cap_get n (st_c s') = cap_get n (st_c s)) /\
+  (forall b s k s', Iter b s k s' -> mentions n b = false -> cap_get n (st_c s') = cap_get n (st_c s)).
+Proof.
+  apply Matches_Iter_ind; intros; cbn [mentions st_c] in *; try reflexivity;
+    try match goal with H : _ || _ = false |- _ => apply orb_false_iff in H as [? ?] end.
+  - rewrite H0, H by assumption. reflexivity.
+  - auto.
+  - auto.
+  - auto.
+  - simpl. rewrite H0. auto.
+  - auto.
+  - rewrite H0, H by assumption. reflexivity.
+Qed.
+
+Lemma Matches_set_inv neg items s s' : Matches (RSet neg items) s s' ->
+  exists x t, st_rest s = x :: t /\ set_match neg items x = true /\ st_rest s' = t /\ st_c s' = st_c s.
+Proof. intros M. inversion M; subst. cbn. eauto 10. Qed.
